@@ -87,6 +87,8 @@ def terms(tier):
         out.append(["xpar", w, "M", "X", "I"])
         out.append(["seq", "T", ["par", w, "E", "N", "M"]])
         out.append(["seq", "Tr", ["xpar", w, "M", "X", "I"]])
+    # fractional weights (floating-point shares that land just below an integer) on larger sizes are covered by
+    # the 'fractional' unit kind below
     # nesting depth 3
     for w in ([1, 1], [1, 2], [0, 1], [3, 1]):
         for w2 in ([1, 1], [2, 1], [1, 0]):
@@ -102,6 +104,10 @@ def units(tier, seed):
     for i in range(0, len(ts), chunk):
         us.append({"kind": "steps", "terms": ts[i: i + chunk], "sizes": [2, 3, 4, 5, 7] if tier == "quick" else [2, 3, 4, 5, 6, 7],
                    "max_dev": 0 if tier == "quick" else 1})
+    fr = [[0.4, 0.3], [0.25, 0.4], [0.8, 0.6], [0.6, 0.3, 0.9], [0.1, 0.2], [0.7, 0.1, 0.2], [0.3, 0.3, 0.4], [0.05, 0.05, 0.9], [1.5, 2.5],
+          [0.35, 0.65], [0.15, 0.3, 0.55]]
+    for w in fr:
+        us.append({"kind": "fractional", "weights": w, "sizes": list(range(2, 14)) + [37, 50]})
     for init in ("standard", "generic", "full", "grow", "pigrow", "ramped", "halfandhalf"):
         us.append({"kind": "init", "init": init})
     for n_inject in range(0, 6):
@@ -160,6 +166,37 @@ def run_steps(unit) -> UnitResult:
                     r.count("step_cases")
     r.states = len(unit["terms"])
     r.samples.append({"terms": unit["terms"][:2], "sizes": unit["sizes"]})
+    return r
+
+
+def run_fractional(unit) -> UnitResult:
+    """Parallel / ExclusiveParallel with fractional float weights on a range of target sizes."""
+    r = UnitResult()
+    rep = StubRepresentation(2)
+    problem = SingleObjectiveProblem(lambda p: [2.0, 0.0, 1.0][p.v % 3])
+    w = unit["weights"]
+    leaves = ["E", "N", "M", "I"][: len(w)] if len(w) <= 3 else ["E", "N", "M", "I"]
+    for head in ("par", "xpar"):
+        term = [head, w] + leaves[: len(w)]
+        for n in unit["sizes"]:
+            for k in sorted({n, max(1, n - 1)}):
+                ev = SequentialEvaluator()
+                inds = [Individual(rep._new(i % 3), rep) for i in range(n)]
+                r.executions += 1
+                r.nontrivial += 1
+                r.count("step_cases")
+                wit = {"unit": {"kind": "fractional", "weights": w, "sizes": [n]}, "k": k, "term": term}
+                try:
+                    got = len(list(build(term).apply(problem, ev, rep, ExhaustiveSource(()), inds, k, 1)))
+                except Exception as e:  # noqa
+                    r.add_violation(Violation(PROP, "GeneticStep.apply", "raised", {"combinators": [head], "form": "list", "exc": type(e).__name__}, wit,
+                                              f"step {term} on {n} individuals, k={k}: {exc_brief(e)}"))
+                    continue
+                if got != k:
+                    r.add_violation(Violation(PROP, "GeneticStep.apply", "wrong-size", {"combinators": [head], "form": "list", "sign": "over" if got > k else "under"}, wit,
+                                              f"step {term} on {n} individuals asked for {k}, yielded {got}"))
+    r.states = len(unit["sizes"])
+    r.samples.append({"weights": w, "sizes": unit["sizes"][:4]})
     return r
 
 
@@ -297,7 +334,7 @@ def run_gp(unit) -> UnitResult:
 
 
 def run_unit(unit) -> UnitResult:
-    return {"steps": run_steps, "init": run_init, "gp": run_gp}[unit["kind"]](unit)
+    return {"steps": run_steps, "init": run_init, "gp": run_gp, "fractional": run_fractional}[unit["kind"]](unit)
 
 
 def finalize(cr):
